@@ -380,4 +380,33 @@ example : EncodeAddress Xtoy (.sh specVec20 (Bytes.ofString "bchtest"))
 /-- non-vacuity of the length hypotheses -/
 example : specVec20.length = 20 ∧ (List.replicate 32 (0 : UInt8)).length = 32 := by decide
 
+
+/-! ## 12. Cash ↔ SLP conversion and the P2PKH address of a public key -/
+
+/-- `ConvertCashToSlpAddress` then `ConvertSlpToCashAddress` gives back the cash form of the same hash, for the two
+    convertible kinds; every other kind is refused by both directions. -/
+theorem C01_convert_roundtrip (net : Net) (h pre : Bytes) (hl : h.length = 20) :
+    (ConvertCashToSlp (.pkh h pre) net = .ok (.pkh h net.slpPrefix) ∧
+     ConvertSlpToCash (.pkh h net.slpPrefix) net = .ok (.pkh h net.cashPrefix)) ∧
+    (ConvertCashToSlp (.sh h pre) net = .ok (.sh h net.slpPrefix) ∧
+     ConvertSlpToCash (.sh h net.slpPrefix) net = .ok (.sh h net.cashPrefix)) := by
+  simp [ConvertCashToSlp, ConvertSlpToCash, newPkh, newSh, hl]
+
+theorem C01_convert_refuses (net : Net) (a : Addr)
+    (hk : ∀ h pre, a ≠ .pkh h pre ∧ a ≠ .sh h pre) :
+    ConvertCashToSlp a net = .error .other ∧ ConvertSlpToCash a net = .error .other := by
+  cases a <;> simp_all [ConvertCashToSlp, ConvertSlpToCash]
+
+/-- the P2PKH address derived from a public-key address carries the Hash160 of the key's serialisation and the cash
+    prefix that `paramsFromNetID` selects for the key's legacy id -/
+theorem C01_pubkey_pkh (X : Ext) (fmt : Nat) (pt : Bytes) (id : UInt8)
+    (hh : (X.hash160 (X.serPub fmt pt)).length = 20) :
+    AddressPubKeyHash X (.pubKey fmt pt id) =
+      some (.pkh (X.hash160 (X.serPub fmt pt)) (prefixFromNetID id)) := by
+  simp [AddressPubKeyHash, serialize, hh]
+
+example : prefixFromNetID 111 = Bytes.ofString "bchtest" ∧ prefixFromNetID 63 = Bytes.ofString "bchsim" ∧
+    prefixFromNetID 0 = Bytes.ofString "bitcoincash" ∧ prefixFromNetID 77 = Bytes.ofString "bitcoincash" := by
+  decide +kernel
+
 end Bch.Props.C01
